@@ -332,7 +332,13 @@ EXHAUSTIVE_NOTE = "vf/core/matrix.py in the iteration engine: every subset of {s
 def exhaustive(tier, stats, shard, nshards, run):
     from vf.core.matrix import select_matrix
 
-    for idx, (label, case) in enumerate(select_matrix(2 if tier == "quick" else 3, 1, bases=("leaf", "sel", "chain"))):
+    import itertools
+
+    plans = itertools.chain(
+        select_matrix(1, 1, bases=("leaf", "sel", "chain")),  # includes the special families of the matrix module
+        select_matrix(2 if tier == "quick" else 3, 1, bases=("leaf", "sel", "chain")),
+    )
+    for idx, (label, case) in enumerate(plans):
         if idx % nshards != shard:
             continue
         try:
